@@ -434,9 +434,16 @@ def export_linear(pc, goal, axioms=None):
     """the query with non-linear products made opaque; None if there are none"""
     q = list(pc) + [z3.Not(goal)]
     memo, hit = {}, [False]
+    def norm(f):
+        # sum-of-monomials form first, so that (k + 1) * b and k * b + b become the same opaque terms
+        try:
+            return z3.simplify(f, som=True)
+        except z3.Z3Exception:
+            return f
+
     try:
-        lin_q = [_linearize(f, memo, hit) for f in q]
-        lin_extra = [_linearize(f, memo, hit) for f in EXTRA]
+        lin_q = [_linearize(norm(f), memo, hit) for f in q]
+        lin_extra = [_linearize(norm(f), memo, hit) for f in EXTRA]
     except Exception:
         return None
     if not hit[0]:
@@ -475,9 +482,11 @@ def _symbols(e, memo):
     return out
 
 
-def export_sliced(pc, goal, axioms=None, rounds=3):
-    """cone of influence: only the assumptions connected to the goal through shared symbols (symbols that
-    occur almost everywhere do not count as a connection).  Dropping assumptions is sound for proving."""
+def export_sliced(pc, goal, axioms=None):
+    """cone of influence at several widths: only the assumptions connected to the goal through shared symbols
+    within a few steps, where symbols occurring in many assumptions (hubs such as `self` or the allocation
+    counter) do not count as a connection.  Dropping assumptions is sound for proving.  Returns a list of
+    SMT-LIB texts, narrowest first."""
     memo = {}
     forms = [c for f in pc for c in _conjuncts(f)]
     allf = forms + list(EXTRA)
@@ -488,28 +497,36 @@ def export_sliced(pc, goal, axioms=None, rounds=3):
     for ss in syms:
         for x in ss:
             count[x] = count.get(x, 0) + 1
-    common = {x for x, c in count.items() if c > 0.3 * len(allf)}
-    rel = _symbols(goal, memo) - common
-    keep = [False] * len(allf)
-    for _ in range(rounds):
-        changed = False
-        for i, ss in enumerate(syms):
-            if not keep[i] and (ss - common) & rel:
-                keep[i] = True
-                rel |= ss - common
-                changed = True
-        if not changed:
-            break
-    kept = [f for f, k in zip(allf, keep) if k]
-    if len(kept) > 0.8 * len(allf):
-        return None
-    q = kept + [z3.Not(goal)]
-    s = z3.Solver()
-    for f in relevant_axioms(q) if axioms is None else axioms:
-        s.add(f)
-    for f in q:
-        s.add(f)
-    return s.to_smt2()
+    gsyms = _symbols(goal, memo)
+    texts = []
+    last = -1
+    for hub, rounds in ((6, 2), (10, 3), (18, 4)):
+        common = {x for x, c in count.items() if c > hub} - gsyms
+        rel = set(gsyms)
+        keep = [False] * len(allf)
+        for _ in range(rounds):
+            changed = False
+            add = set()
+            for i, ss in enumerate(syms):
+                if not keep[i] and (ss - common) & rel:
+                    keep[i] = True
+                    add |= ss - common
+                    changed = True
+            rel |= add
+            if not changed:
+                break
+        n = sum(keep)
+        if n == last or n > 0.9 * len(allf):
+            continue
+        last = n
+        q = [f for f, k in zip(allf, keep) if k] + [z3.Not(goal)]
+        s = z3.Solver()
+        for f in relevant_axioms(q) if axioms is None else axioms:
+            s.add(f)
+        for f in q:
+            s.add(f)
+        texts.append(s.to_smt2())
+    return texts or None
 
 
 def export_relaxed(pc, goal):
@@ -531,12 +548,12 @@ def export_relaxed(pc, goal):
 def solve_text(text, relaxed, timeout_ms=10000, cvc5_timeout_ms=20000, noseq=None, linear=None, sliced=None):
     """verdict dict for one exported query"""
     t0 = time.time()
-    if sliced:
+    for si, stext in enumerate(sliced or []):
         s0 = z3.Solver()
-        s0.set("timeout", max(2000, int(timeout_ms) // 4))
-        s0.from_string(sliced)
+        s0.set("timeout", max(1500, int(timeout_ms) // 6))
+        s0.from_string(stext)
         if s0.check() == z3.unsat:
-            return {"status": "discharged", "backend": "z3", "seconds": round(time.time() - t0, 4), "note": "cone of influence"}
+            return {"status": "discharged", "backend": "z3", "seconds": round(time.time() - t0, 4), "note": f"cone of influence (width {si})"}
     if linear:
         # most obligations of code that mentions products need no non-linear reasoning: try the
         # linear abstraction first (an `unsat` of the weaker query is a proof), it is much faster
